@@ -82,6 +82,7 @@ type Sim struct {
 	pos      int
 	start    time.Time
 	rootG    uint64
+	stall    time.Duration
 
 	trace bool
 	res   *Result
@@ -355,6 +356,7 @@ func (s *Sim) loop(done func() bool) bool {
 		if idx >= len(cands) {
 			d := time.Duration(s.cfg.TimeSteps[idx-len(cands)])
 			s.res.TimeAdv++
+			s.stall += d
 			s.Logf("advance %v", d)
 			time.Sleep(d)
 			continue
@@ -562,6 +564,10 @@ func (s *Sim) FaultCount() int {
 	}
 	return n
 }
+
+// StallTime returns the total simulated time injected so far by "advance time
+// while tasks are parked" decisions (whole-system stalls).
+func (s *Sim) StallTime() time.Duration { return s.stall }
 
 // ProbeN adds n to a probe counter.
 func (s *Sim) ProbeN(name string, n int) {
